@@ -10,6 +10,7 @@ import Dcg.Gen.LoopSites
 import Dcg.Proofs.Loops
 import Dcg.Proofs.TemplateInv
 import Dcg.Proofs.Placeholder
+import Dcg.Proofs.ImportsDump
 /-
 C01 — generation terminates and every emitted module is valid Python.
 
@@ -382,6 +383,51 @@ example : good (blockOf "E = Base".toList) = true ∧ goodClass (blockOf "E = Ba
 
 end Templates
 
+/-! ### The import block: no `from … import` line without a name -/
+
+section ImportLines
+open Dcg.Model.Imports Dcg.Proofs.ImportsDump
+
+/-- **No group of the import multimap is empty, whatever `Parser.parse` did with it.** Every state the
+modelled `Imports` object (C02's `Model/Imports`: `append`, `remove`, `remove_referenced_imports` with
+their reference counts, `remove()` deleting a group when it takes its last name) reaches from the empty
+object has only groups that hold a name.  The REAL object is tied to this on every run: the recorded
+history of every `Imports` object of `generate()` goes through `run` and the resulting groups — the empty
+ones included — and `dump()` text are compared with the real object's (campaign `imports at dump`).
+Reading `imports[from_]` of a deleted group (a `defaultdict` re-creates it, empty) is not an operation of
+the model: it shows as a real group the model does not have. -/
+theorem imports_no_empty_group (ops : List Op) (s : State) (h : run {} ops = some s) : NoEmptyGroup s :=
+  noEmpty_run ops {} s noEmpty_empty h
+
+/-- … and the pruning step of `Parser.parse` (every name that does not occur in the rendered code is
+released) keeps it so: a module that uses NO name of a package loses the group, not only its names. -/
+theorem pruning_keeps_groups_nonempty (code : Dcg.Model.Types.Str) (s s' : State)
+    (h : NoEmptyGroup s) (hp : prune code s = some s') : NoEmptyGroup s' :=
+  noEmpty_prune code s s' h hp
+
+/-- **Every line `Imports.dump()` writes carries at least one name** (one entry per name of its group),
+given that no group is empty.  `dump s` is by definition the `create_line` of every group, in order. -/
+theorem dump_lines_have_names (s : State) (h : NoEmptyGroup s) :
+    ∀ p ∈ s.imports, (withAlias s p.1 p.2).length = p.2.length ∧ withAlias s p.1 p.2 ≠ [] := by
+  intro p hp
+  refine ⟨length_withAlias s p.1 p.2, ?_⟩
+  intro he
+  have hl := length_withAlias s p.1 p.2
+  rw [he] at hl
+  exact h p hp (List.length_eq_zero_iff.mp hl.symm)
+
+example : NoEmptyGroup (append1 {} IMPORT_OPTIONAL) ∧ (append1 {} IMPORT_OPTIONAL).imports ≠ [] := by
+  refine ⟨noEmpty_append1 _ _ noEmpty_empty, ?_⟩
+  decide
+
+/-- The invariant is needed: for a group without names `create_line` writes the dangling
+`from <module> import ` (not Python). -/
+theorem empty_group_dangles (s : State) (f : Dcg.Model.Types.Str) (hf : f ≠ []) :
+    createLine s (some f) [] = sFrom ++ f ++ sImportSp := by
+  simp [createLine, hf, withAlias, sortStrs, Dcg.Model.Types.joinSep]
+
+end ImportLines
+
 /-! ### Keyword names of `Field(...)` written by Python code -/
 
 /-- **Every extra key that can become a keyword NAME of `Field(...)` goes through the identifier
@@ -390,9 +436,14 @@ methods of the class; regenerated from the source's AST on every run) are all ca
 `self.get_field_extra_key(…)`, which for field models that write extras as keyword arguments
 (pydantic v1) is `ModelResolver.get_valid_field_name_and_alias(key)[0]` — a Python identifier (C07).
 A path that returns `key.lstrip("x-")` without the sanitiser breaks this theorem
-(`Field(None, display-name=…)` would not parse). -/
+(`Field(None, display-name=…)` would not parse).  And the sanitiser IS that resolver on every return path of
+every function bound to the name under `can_have_extra_keys` (Gen/CodeSites.fieldExtraKeySanitiser, from the
+AST; Props/C10 `field_extra_key_sanitiser_resolves`): a path that hands the key back unchanged — e.g. for
+`key.isidentifier()`, which holds of every Python keyword — would write `Field(None, not=…, class=…)`. -/
 theorem field_extra_keys_sanitised :
     Dcg.Gen.CodeSites.fieldExtraKeySites.all (fun s => s.2.2) = true ∧
-    Dcg.Gen.CodeSites.fieldExtraKeySites ≠ [] := by decide
+    Dcg.Gen.CodeSites.fieldExtraKeySites ≠ [] ∧
+    Dcg.Gen.CodeSites.fieldExtraKeySanitiser.all Dcg.Model.CodeSites.sanitiserPathOK = true ∧
+    Dcg.Gen.CodeSites.fieldExtraKeySanitiser.any Dcg.Model.CodeSites.sanitiserBindsKeywordCase = true := by decide
 
 end Dcg.Props.C01
